@@ -174,7 +174,12 @@ func binTrace(sc binScenario, points []pointRec, last string, dirNow map[string]
 // table only. cf.* points are disambiguated by TLC (the model knows which control file is closed).
 func cfOf(p pointRec) string { return "?" }
 
-func dirProjection(repo string, files []string) map[string]sched.DirF {
+// versions[table file name] = contents after 0, 1, 2 ... commits; the ver of the projection is the index.
+func dirProjection(repo string, files []string, versions map[string][]string) map[string]sched.DirF {
+	return dirProjection2(sut.Snapshot(repo), files, versions)
+}
+
+func dirProjectionOld(repo string, files []string) map[string]sched.DirF {
 	m := map[string]sched.DirF{}
 	ents, _ := os.ReadDir(repo)
 	for _, f := range files {
@@ -249,6 +254,15 @@ func crashScenarios(thorough bool) []binScenario {
 		{Name: "twocommits", Tables: map[string]string{"f1.csv": rowsCSV(3, 0)},
 			SQL:  "UPDATE `f1.csv` SET n = n + 1;\nCOMMIT;\nUPDATE `f1.csv` SET n = n + 1;\nCOMMIT;\n",
 			Prog: []sched.Op{{Op: "update", F: "f1"}, {Op: "commit", F: "-"}, {Op: "update", F: "f1"}, {Op: "commit", F: "-"}}},
+		{Name: "shrinkhead", Tables: map[string]string{"f1.csv": "id,v\n1,aaaaaaaa\n2,bb\n3,cccccccccccc\n4,d\n5,eeeeee\n6,ffff\n"},
+			SQL:  "DELETE FROM `f1.csv` WHERE id <= 3;\nCOMMIT;\n",
+			Prog: []sched.Op{{Op: "update", F: "f1"}, {Op: "commit", F: "-"}}},
+		{Name: "shorter", Tables: map[string]string{"f1.csv": "id,v\n1,aaaaaaaaaaaaaaaa\n2,bbbbbbbbbbbbbbbbbbbb\n3,cccccccccccc\n", "f2.csv": "id,v\n1,x\n"},
+			SQL:  "UPDATE `f1.csv` SET v = 'q' WHERE id <> 2;\nINSERT INTO `f2.csv` VALUES (2, 'a much longer value than before'), (3, 'and another one');\nCOMMIT;\n",
+			Prog: []sched.Op{{Op: "update", F: "f1"}, {Op: "update", F: "f2"}, {Op: "commit", F: "-"}}},
+		{Name: "dropcol", Tables: map[string]string{"f1.csv": "id,v,w\n1,aaaa,x\n2,bb,yyyyyy\n3,c,zz\n"},
+			SQL:  "ALTER TABLE `f1.csv` DROP (v);\nCOMMIT;\nDELETE FROM `f1.csv` WHERE id = 1;\nCOMMIT;\n",
+			Prog: []sched.Op{{Op: "update", F: "f1"}, {Op: "commit", F: "-"}, {Op: "update", F: "f1"}, {Op: "commit", F: "-"}}},
 		{Name: "empty", Tables: map[string]string{"f1.csv": "n\n"}, SQL: "INSERT INTO `f1.csv` VALUES (1);\nCOMMIT;\n",
 			Prog: []sched.Op{{Op: "update", F: "f1"}, {Op: "commit", F: "-"}}},
 	}
@@ -285,26 +299,50 @@ func runC10(r *core.Run) {
 				core.Fail("scenario %s does not change %s", sc.Name, n)
 			}
 		}
-		// contents after each intermediate COMMIT are committed states too
-		allowed := map[string]map[string]bool{}
-		for n, c := range sc.Tables {
-			allowed[n] = map[string]bool{c: true, newC[n]: true}
-		}
+		// contents after each intermediate COMMIT are committed states too: versions[n][k] = after k commits
 		parts := strings.SplitAfter(sc.SQL, "COMMIT;\n")
-		for k := 1; k < len(parts)-1; k++ {
-			pre := sc
-			pre.Name = sc.Name + ".pre"
-			pre.SQL = strings.Join(parts[:k], "")
-			d2, rs2, _ := runScenario(r, pre, nil, true)
-			if rs2.Exit != 0 {
-				core.Fail("prefix run failed: %s", rs2.Stderr)
+		ncommit := len(parts) - 1
+		versions := map[string][]string{}
+		for n, c := range newC {
+			if strings.HasSuffix(n, ".csv") {
+				versions[n] = []string{sc.Tables[n]}
+				_ = c
 			}
-			for n, c := range sut.Snapshot(filepath.Join(d2, "repo")) {
-				if allowed[n] != nil {
-					allowed[n][c] = true
+		}
+		for k := 1; k <= ncommit; k++ {
+			snap := newC
+			if k < ncommit {
+				pre := sc
+				pre.Name = sc.Name + ".pre"
+				pre.SQL = strings.Join(parts[:k], "")
+				d2, rs2, _ := runScenario(r, pre, nil, true)
+				if rs2.Exit != 0 {
+					core.Fail("prefix run failed: %s", rs2.Stderr)
+				}
+				snap = sut.Snapshot(filepath.Join(d2, "repo"))
+				_ = os.RemoveAll(d2)
+			}
+			for n := range versions {
+				c, ok := snap[n]
+				if !ok {
+					c = versions[n][len(versions[n])-1]
+				}
+				if sc.Tables[n] == "" && len(versions[n]) == 1 && ok {
+					// a created table: version 0 is its first committed contents
+					versions[n][0] = c
+					continue
+				}
+				if c != versions[n][len(versions[n])-1] {
+					versions[n] = append(versions[n], c)
 				}
 			}
-			_ = os.RemoveAll(d2)
+		}
+		allowed := map[string]map[string]bool{}
+		for n := range sc.Tables {
+			allowed[n] = map[string]bool{}
+			for _, c := range versions[n] {
+				allowed[n][c] = true
+			}
 		}
 		files := []string{"f1", "f2"}
 		// crash points: everything from the first statement on (thinned inside the encode loop)
@@ -324,7 +362,7 @@ func runC10(r *core.Run) {
 		}
 		ref := binTrace(sc, points, "", nil)
 		traceLines = append(traceLines, ref...)
-		traceLines = append(traceLines, core.JSON(map[string]interface{}{"a": "end", "dir": dirProjection2(newC, files)}))
+		traceLines = append(traceLines, core.JSON(map[string]interface{}{"a": "end", "dir": dirProjection2(newC, files, versions)}))
 		ntr++
 		type outc struct {
 			id   string
@@ -360,13 +398,13 @@ func runC10(r *core.Run) {
 					o.sig = "crash:table-torn@" + pt
 				}
 			}
-			o.tr = binTrace(sc, pts, "crash", dirProjection(repo, files))
+			o.tr = binTrace(sc, pts, "crash", dirProjection(repo, files, versions))
 			if o.sig == "" {
 				// recovery as the manual instructs: delete the hidden files, then read and update again
 				removeControlFiles(repo)
 				var q []string
 				for n := range sc.Tables {
-					q = append(q, "SELECT COUNT(*) FROM `"+n+"`;", "UPDATE `"+n+"` SET n = n + 1;")
+					q = append(q, "SELECT COUNT(*) FROM `"+n+"`;", "INSERT INTO `"+n+"` SELECT * FROM `"+n+"` LIMIT 1;")
 				}
 				sort.Strings(q)
 				rr := sut.RunBin(sut.BinOpts{Csvq: r.Csvq, Dir: d, Args: []string{"--repository", repo, "--wait-timeout", "0.3", "--quiet", strings.Join(q, " ") + " COMMIT;"}, Timeout: 30 * time.Second})
@@ -429,7 +467,22 @@ func minInt(a, b int) int {
 	return b
 }
 
-func dirProjection2(snap map[string]string, files []string) map[string]sched.DirF {
+func verIn(versions []string, c string) int {
+	if versions == nil {
+		return versionOf(c)
+	}
+	for k := len(versions) - 1; k >= 0; k-- {
+		if versions[k] == c {
+			return k
+		}
+	}
+	if c == "" {
+		return -3
+	}
+	return -2
+}
+
+func dirProjection2(snap map[string]string, files []string, versions map[string][]string) map[string]sched.DirF {
 	m := map[string]sched.DirF{}
 	for _, f := range files {
 		d := sched.DirF{Ver: -1}
@@ -437,7 +490,11 @@ func dirProjection2(snap map[string]string, files []string) map[string]sched.Dir
 			switch {
 			case n == f+".csv":
 				d.Exists = true
-				d.Ver = versionOf(c)
+				if versions != nil {
+					d.Ver = verIn(versions[n], c)
+				} else {
+					d.Ver = versionOf(c)
+				}
 			case n == "."+f+".csv.lock":
 				d.Lock = true
 			case n == "."+f+".csv.temp":
